@@ -75,10 +75,17 @@ def readback_lemmas(ctx, eng, ce):
         st = st0.fork()
         setf(ctx, eng, st, a, "control.on", z3.BoolVal(True))
         viol = []
+        pre = st.fork()
+        last = [None, None]
         for (s1, _) in call(ctx, eng, st, A + "Write" + reg, [a, v]):
             for (s2, r) in call(ctx, eng, s1, A + "Read" + reg, [a]):
                 viol.append(z3.And(s2.pcond(), r != (v | mask)))
-        lem.add("lemma:readback:%s" % reg, z3.Or(*viol) if viol else z3.BoolVal(True))
+                last = [r, s2]
+        ob = lem.add("lemma:readback:%s" % reg, z3.Or(*viol) if viol else z3.BoolVal(True))
+        if viol:
+            from engine.replay2 import script_info
+            ob.info = script_info(w, pre, "github.com/scottyw/tetromino/gameboy/audio", [(A + "Write" + reg, [a, v]), (A + "Read" + reg, [a])],
+                                  [None, last[0]], last[1], [a.obj])
     # ---- NR52: 0x70 | power | status bits
     st = st0.fork()
     viol = []
